@@ -45,6 +45,18 @@ CHECKS = {
     "C18": dict(level="other", technique="definitional functions located by parameter types; algebraic normal form compared with a table of textbook formulas (oracle/formulas.py, 68 entries)",
                 text="Decides which real function each definitional relation computes, constants included, for all positive inputs and the three numeric types; few-ulp accuracy is not decided.",
                 note="trusted: clang front end, evaluator, sympy, the formula table", ref="3/C18, Appendix B"),
+    "C10": dict(level="other", technique="typestate / who-may-write analysis of the stored vector of Direction and PlanarDirection (every constructor, mutator and producer evaluated and classified), syntactic write scan over all bodies, algebraic rules for Magnitude / accessors / scalar x direction constructors",
+                text="Decides the structure of the unit-vector invariant (no path bypasses normalisation; the normalisation formula with its zero branch) and the typed magnitude / component / recomposition rules for all vector quantities; the four-ulp and few-ulp clauses are not decided.",
+                note="trusted: clang front end, evaluator, sympy", ref="3/C10"),
+    "C11": dict(level="other", technique="shape/interval rule on every std::acos reachable from the angle kernels (argument dominated by a clamp into [-1,1] in floating point), algebraic comparison of the clamped cosine with dot/(|a||b|), delegation of the quantity-level angle functions",
+                text="Decides never-NaN and range [0, pi] for all non-zero, non-overflowing inputs (given libm's acos contract), symmetry, scale-freeness and the values at (anti)parallel inputs algebraically, and that all quantity-level angle functions delegate to the kernels. Agreement with atan2 to 1e-7 rad is not decided.",
+                note="trusted: clang front end, evaluator, sympy; libm acos returns a value in [0, pi] for arguments in [-1, 1]", ref="3/C11, 4.2"),
+    "C12": dict(level="other", technique="term evaluation of the 20 constructors / 7 accessors / all Stress-Strain overloads; elasticity identities decided by polynomial normalisation modulo the radicals, root selection by exact evaluation of the terms at rational admissible materials; override table",
+                text="Decides that every constructor stores the (mu, lambda) of the material its inputs denote, that accessors report the identities, that stress = 2 mu eps + lam tr(eps) I with the exact inverse for all three overloads, argument-independence of the stubs, and override completeness. Per-precision accuracy is not decided.",
+                note="trusted: clang front end, evaluator, sympy, oracle/elasticity.py", ref="3/C12"),
+    "C13": dict(level="other", technique="term evaluation of every Stress/StrainRate/Strain overload of both Newtonian fluid classes; slot-wise algebraic comparison with 2 mu D (+ mu_b tr(D) I) and its inverse; leaf-set independence; override table",
+                text="Decides the linear viscous law and its exact inverse for all three overloads of both classes and all numeric types, the zero stubs, the ignored strain argument and the zero bulk viscosity default. Per-precision accuracy is not decided.",
+                note="trusted: clang front end, evaluator, sympy, oracle/elasticity.py", ref="3/C13"),
 }
 
 NOT_YET = {
